@@ -144,7 +144,7 @@ fn run_threads(
     }
     g.status[tid] != Status::Running
   };
-  const LONG: u32 = 400;
+  const LONG: u32 = 4000;
   const SHORT: u32 = 12;
   for tid in 0..n {
     {
